@@ -185,7 +185,8 @@ def gen_ops(rng):
     P, lens = gen_lens(rng)
     n = sum(lens)
     c = {"kind": "ops", "P": P, "lens": lens, "n": n,
-         "vals": [rng.randint(-9, 9) if rng.random() < 0.5 else rng.randint(0, 9) for _ in range(n)],
+         "vals": ([rng.randint(-9, -1) for _ in range(n)] if rng.random() < 0.2      # all negative: the true maximum is < 0
+                  else [rng.randint(-9, 9) if rng.random() < 0.5 else rng.randint(0, 9) for _ in range(n)]),
          "ns": [rng.choice([0, 1, 1, 2, 3, 4]) for _ in range(P)],
          "dtype": rng.choice(["float64", "int64"]), "jitter": gen_jitter(rng)}
     if sum(c["ns"]) == 0:
@@ -603,6 +604,8 @@ def nontrivial(c, out):
 
 def tags(c, out):
     t = [c["kind"], "P=%d" % c["P"]]
+    if c["kind"] == "ops" and max(c["vals"]) < 0:
+        t.append("ops-all-negative")
     lens, P = c["lens"], c["P"]
     if any(len(owned(lens, r, P)) == 1 for r in range(P)):
         t.append("rank-owns-one-trajectory")
@@ -640,7 +643,7 @@ def tags(c, out):
     return t
 
 
-ESSENTIAL_TAGS = ["kc", "kcw", "hybrid", "ops", "io", "P=1", "P=2", "P=3", "P=4", "P=5", "P=6", "rank-owns-one-trajectory",
+ESSENTIAL_TAGS = ["ops-all-negative", "kc", "kcw", "hybrid", "ops", "io", "P=1", "P=2", "P=3", "P=4", "P=5", "P=6", "rank-owns-one-trajectory",
                   "every-rank-owns-one-trajectory", "P>=5-every-rank-owns-one-trajectory",
                   "equal-local-lengths-unequal-global", "P>=4-equal-local-lengths-unequal-global",
                   "three-schedules", "arrival-orders-varied", "last-arriver-varied",
